@@ -4,6 +4,7 @@
 
 use rand::{rngs::StdRng, seq::SliceRandom, Rng};
 use serde_json::{json, Value as J};
+use sha3::{Digest, Keccak256};
 
 use crate::progen::{assemble, Item};
 
@@ -192,13 +193,34 @@ fn key_code(v: &VarDesc) -> Vec<Item> {
             }
         }
         Kind::Dyn => {
-            c.extend([p1(0), Item::Op(MSTORE), p1(0x20), p1(0), Item::Op(SHA3)]);
+            let small = v.slot[..30].iter().all(|b| *b == 0) && (usize::from(v.slot[30]) << 8 | usize::from(v.slot[31])) < 10_000;
+            if small && v.style >= 2 {
+                // the base as the optimiser leaves it: keccak(slot) folded to a literal (the tool knows the hashes of
+                // the first 10 000 slot numbers)
+                let mut w = [0u8; 32];
+                w.copy_from_slice(&v.slot);
+                c = vec![Item::Push(Keccak256::digest(w).to_vec())];
+            } else {
+                c.extend([p1(0), Item::Op(MSTORE), p1(0x20), p1(0), Item::Op(SHA3)]);
+            }
             c.extend(calldata(4));
             c.push(Item::Op(ADD));
         }
         _ => {}
     }
     c
+}
+
+/// Slot numbers below 10 000 whose keccak hash begins with a zero byte (a hash is a word like any other: it
+/// need not fill all 32 bytes).
+pub fn short_hash_slots() -> Vec<u64> {
+    (0..10_000u64)
+        .filter(|n| {
+            let mut w = [0u8; 32];
+            w[24..].copy_from_slice(&n.to_be_bytes());
+            Keccak256::digest(w)[0] == 0
+        })
+        .collect()
 }
 
 fn read_code(v: &VarDesc) -> Vec<Vec<Item>> {
@@ -380,8 +402,12 @@ pub fn slot_from_u64(v: u64) -> [u8; 32] {
 
 fn random_slot(rng: &mut StdRng, used: &mut Vec<[u8; 32]>) -> [u8; 32] {
     loop {
-        let mut s = match rng.gen_range(0..10) {
+        let mut s = match rng.gen_range(0..11) {
             0..=5 => slot_from_u64(rng.gen_range(0..40)),
+            10 => {
+                let special = short_hash_slots();
+                slot_from_u64(special[rng.gen_range(0..special.len().min(12))])
+            }
             6 => slot_from_u64(rng.gen_range(1000..100_000)),
             7 => {
                 let mut s = [0u8; 32];
